@@ -25,7 +25,7 @@ theorem tables_documented :
     text verbatim, manufacturer 'Kamstrup'. -/
 theorem kamstrup_body (hF : ScaledCorrect) (l : KamList) (h : l.WF) :
     Kamstrup.decodeBody (encKamList l) = .dict (kamExpected l) := by
-  sorry
+  exact KamstrupRT.decodeBody_ok hF l h
 
 /-- **C09 (frame).** The meter clock is the APDU date-time (it overrides a clock element); every
     other field as for the bare body. -/
@@ -34,6 +34,6 @@ theorem kamstrup_frame (hF : ScaledCorrect) (hd : Header) (hh : hd.WF) (hc : hd.
     Kamstrup.decodeFrame (encHeader hd ++ encKamList l) =
       .dict ((kamExpected l).set "meter_datetime" (.dt (match hd.clock with
         | .tagged d => expectedDT d | .untagged d => expectedDT d | .null => default))) := by
-  sorry
+  exact KamstrupRT.decodeFrame_ok hF hd hh hc l h
 
 end Amshan.C09
